@@ -43,6 +43,7 @@ type loopInfo struct {
 
 type FnRun struct {
 	pendingRet map[string]Val // results about to be returned, while deferred calls run
+	postSkipped, postEvaluated map[*Clause]int
 	siteArgs   []Val          // arguments of the call whose callsite assertions are being checked
 	ex       *Exec
 	fn       *ssa.Function
@@ -199,7 +200,9 @@ func (ex *Exec) verifyCase(fn *ssa.Function, key string, ctr *Contract, cs *Case
 			// variable a closure stopped capturing) cannot be stated any more: that is reported as a
 			// failed obligation, conjunct by conjunct, and the remaining conjuncts are still assumed
 			for j, cj := range exprConjuncts(rq.E) {
-				t, msg := fr.tryEvalBool(cj, &Env{st: st, old: st, vars: env, fr: fr})
+				// (`assuming`: a requires clause is assumed at the entry of the function it belongs to;
+				// that is the only place where each() can be given a meaning)
+				t, msg := fr.tryEvalBool(cj, &Env{st: st, old: st, vars: env, fr: fr, assuming: true})
 				if msg != "" {
 					fr.stalePre = append(fr.stalePre, fmt.Sprintf("%d.%d|%s   [%s]", i+1, j+1, rq.Src, msg))
 					continue
@@ -226,6 +229,17 @@ func (ex *Exec) verifyCase(fn *ssa.Function, key string, ctr *Contract, cs *Case
 	fr.runFrom(st, fn.Blocks[0], nil, 0, func(st *State, results []Val) {
 		fr.checkPost(st, results)
 	})
+	// an [internal] clause over locals that was skipped on every return path (its locals are never
+	// in scope at a return) states nothing: that is a failed obligation, not a pass
+	for en, skipped := range fr.postSkipped {
+		if skipped > 0 && fr.postEvaluated[en] == 0 {
+			d := en.Label
+			if d == "" {
+				d = "internal"
+			}
+			fr.oblige(st, "post", d, tFalse, en, en.Src+"   [never evaluable: its locals are not in scope at any return]")
+		}
+	}
 	if fr.nobl == 0 {
 		// a function with no obligations at all is still recorded so vacuity can be seen
 	}
@@ -685,6 +699,22 @@ func (fr *FnRun) checkPost(st *State, results []Val) {
 				t, evalErr = Not(ta), ""
 			}
 		}
+		if evalErr != "" && en.Internal && en.E.Kind == "bin" && en.E.Op == "==>" && fr.mentionsUndefinedLocal(evalErr) {
+			// an [internal] clause `A ==> B` whose antecedent talks about a local of the function that
+			// does not exist on this return path (the function returned before declaring it): the
+			// situation A describes did not arise here
+			if fr.postSkipped == nil {
+				fr.postSkipped = map[*Clause]int{}
+			}
+			fr.postSkipped[en]++
+			continue
+		}
+		if evalErr == "" {
+			if fr.postEvaluated == nil {
+				fr.postEvaluated = map[*Clause]int{}
+			}
+			fr.postEvaluated[en]++
+		}
 		if evalErr != "" {
 			// the clause can no longer be stated over this function (e.g. it mentions a captured
 			// variable the function no longer has): the obligation fails
@@ -708,6 +738,21 @@ func (fr *FnRun) checkPost(st *State, results []Val) {
 	}
 	fr.checkFrame(st)
 	fr.defaultPost(st, results)
+}
+
+// mentionsUndefinedLocal: the evaluation error names an identifier that is a source-level local of
+// this function (so the clause is about a later part of the body), not something unknown altogether.
+func (fr *FnRun) mentionsUndefinedLocal(evalErr string) bool {
+	i := strings.Index(evalErr, "unknown identifier \"")
+	if i < 0 {
+		return false
+	}
+	name := evalErr[i+len("unknown identifier \""):]
+	if j := strings.Index(name, "\""); j >= 0 {
+		name = name[:j]
+	}
+	_, ok := fr.locals[name]
+	return ok
 }
 
 // defaultPost: implicit postconditions every function gets.
